@@ -135,6 +135,7 @@ def cli(argv=sys.argv, mode='output'):
     else:
         G.to_file(args.output, fileformat='dimacs',
                   export_header=args.verbose)
+        args.output.flush()
 
 
 # Launcher
@@ -159,11 +160,21 @@ def main():
         print(str(e), file=sys.stderr)
         sys.exit(-1)
 
-    except (BrokenPipeError, IOError):
+    except BrokenPipeError:
         # avoid errors when stdout is closed before the end of the
         # program (i.e. piping into a command line which does
         # not work.)
         pass
+
+    except IOError as e:
+        # any other input/output failure (full disk, unreadable or
+        # unwritable file) must not look like a success
+        import cnfgen.clitools.msg as msg
+        # the prefix of the output format is still active if the
+        # failure happened while the formula was being written
+        with msg_prefix('' if msg._prefix else 'c '):
+            error_msg("ERROR: " + str(e))
+        sys.exit(-1)
 
     # avoid signaling BrokenPipeError as whatnot
     sys.stderr.close()
